@@ -77,8 +77,8 @@ structure Quirks where
   /-- `range`: an end bound below every entry (`Err(0)`) selects nothing (`true`) /
       is turned into index 0 (`false`, stream.rs:281-282). -/
   rangeEndFix : Bool
-  /-- auto ID when `seq = 2^64-1` and the clock has not advanced: carry into the millisecond,
-      refuse at the very top (`true`) / `seq + 1` wraps to 0 (`false`, stream.rs:180-181). -/
+  /-- auto ID when `seq = 2^64-1` and the clock has not advanced: carry into the next millisecond, and
+      `StorageEngine::xadd` refuses at the very top (`true`) / `seq + 1` wraps to 0 (`false`, stream.rs:180-181). -/
   seqCarry : Bool
   /-- ID text: empty or overflowing components are refused (`true`) /
       empty reads as 0 and digits wrap modulo 2^64 (`false`, `parse_u64_fast`). -/
@@ -148,11 +148,16 @@ structure Stream where
 def Stream.new : Stream := ⟨[], Id.zero, 0, 0, 0⟩
 
 /-- `StreamId::generate_next_atomic` with clock reading `now` (single-threaded: the CAS succeeds).
-    Result: the ID and the new `(last_id_millis, last_id_seq)`; `none` = refused (only with `seqCarry`). -/
+    Result: the ID and the new `(last_id_millis, last_id_seq)`.  The function is total in the code;
+    the `Option` is kept for the model's callers and is always `some`.
+    `seqCarry = false` (pinned): `fetch_add(1)` and `seq + 1` wrap.
+    `seqCarry = true`: `last_seq.checked_add(1)`, else carry `prev_millis.checked_add(1)`, else — the top of
+    the ID space, which `StorageEngine::xadd` refuses before getting here — saturate at `(prev_millis, u64::MAX)`. -/
 def nextAuto (q : Quirks) (now : Nat) (s : Stream) : Option (Id × Nat × Nat) :=
   if now > s.atomMs then some (⟨now, 0⟩, now, 0)
   else if q.seqCarry && decide (s.atomSeq + 1 ≥ u64Mod) then
-    if s.atomMs + 1 ≥ u64Mod then none else some (⟨s.atomMs + 1, 0⟩, s.atomMs + 1, 0)
+    if s.atomMs + 1 ≥ u64Mod then some (⟨s.atomMs, u64Max⟩, s.atomMs, s.atomSeq)
+    else some (⟨s.atomMs + 1, 0⟩, s.atomMs + 1, 0)
   else
     -- `let seq = last_seq.fetch_add(1)` (wraps) ; `StreamId::new(prev_millis, seq + 1)` (wraps in release)
     let seq' := (s.atomSeq + 1) % u64Mod
@@ -164,6 +169,14 @@ def addAuto (q : Quirks) (now : Nat) (f : Fields) (s : Stream) : Stream × Optio
   | none => (s, none)
   | some (id, ms, sq) =>
     ({ entries := s.entries ++ [(id, f)], lastId := id, atomMs := ms, atomSeq := sq, length := s.length + 1 }, some id)
+
+/-- `id == StreamId::max()` for u64 halves (`v = u64::MAX ↔ v + 1 ≥ 2^64`): no greater ID exists. -/
+def isTopId (a : Id) : Bool := decide (a.ms + 1 ≥ u64Mod) && decide (a.seq + 1 ≥ u64Mod)
+
+/-- `StorageEngine::xadd` on an existing stream: with the repair, `XADD *` is refused (command error, nothing
+    changes) when the stream's last ID is the greatest possible one; otherwise `add_auto`. -/
+def xaddAuto (q : Quirks) (now : Nat) (f : Fields) (s : Stream) : Stream × Option Id :=
+  if q.seqCarry && isTopId s.lastId then (s, none) else addAuto q now f s
 
 /-- `StreamData::add_with_id`: `id <= last_id` refused, duplicate refused, else push and set all three copies of the last ID. -/
 def addWithId (id : Id) (f : Fields) (s : Stream) : Stream × Bool :=
@@ -268,7 +281,7 @@ def wrapsAt (now : Nat) (s : Stream) : Bool := decide (now ≤ s.atomMs) && deci
 
 def step (q : Quirks) (r : Run) : Op → Run
   | .addAuto now f =>
-    match addAuto q now f r.st with
+    match xaddAuto q now f r.st with
     | (st', some id) => ⟨st', r.added ++ [(id, f)], r.wrapped || wrapsAt now r.st⟩
     | (st', none) => ⟨st', r.added, r.wrapped || wrapsAt now r.st⟩
   | .addId id f =>
@@ -413,7 +426,7 @@ def xadd (q : Quirks) (now : Nat) (ks : Keyspace) (args : List Bytes) : Keyspace
       let f := fieldsOfArgs rest []
       if idb = [42] then
         let s := (lookup ks key).getD Code.Stream.new
-        match addAuto q now f s with
+        match xaddAuto q now f s with
         | (s', some id) => (store ks key s', .bulk id.text)
         | (_, none) => (ks, .err)
       else
